@@ -15,6 +15,16 @@
 (*       or ill-formed name, unterminated quote, macro / snippet inside a  *)
 (*       block).  Expected(doc) is the documented outcome: class           *)
 (*       error | tree | any and, for tree, the abstract tree.              *)
+(*       Directive NAMES are also generated over a character-class         *)
+(*       alphabet (NameClasses: ASCII / non-ASCII letter, ASCII / non-     *)
+(*       ASCII decimal digit, punctuation, other number, combining mark,   *)
+(*       symbol) in five positions (top level, inside a block, as block    *)
+(*       header, inside an imported snippet, in an imported file - the     *)
+(*       last one through layer "i"); NameOK is the documented             *)
+(*       rule (letters, digits, ". - _", no digit first).  Characters      *)
+(*       outside ASCII are written as tokens ~XXXX~ (hexadecimal code      *)
+(*       point) in every string of this module; the harness replaces them  *)
+(*       by the character before parsing and back in what it records.      *)
 (*  "m"  a structured document with one piece-level mutation (drop one     *)
 (*       piece / insert one piece of a nasty alphabet): class "any".       *)
 (*  "r"  raw: every string over the byte-class alphabet up to RawLen.      *)
@@ -59,6 +69,7 @@ CONSTANTS
   SnipSplits, \* 1000000*e + 1000*o + i: snippet i blocks deep imported o blocks deep; e = 1: innermost block empty
   FileSplits, \* same encoding: file i blocks deep imported o blocks deep
   FileChains, \* 1000*k + d: chains of k+1 files, each nesting the next import inside d blocks
+  NameCodes,  \* 1000000*position + the name's character classes as base-16 digits (first character lowest)
   Devs        \* deviations of the code the rule takes into account (as-is model)
 
 VARIABLES layer, doc, style, mut, raw
@@ -85,7 +96,10 @@ ByteClasses ==
      [c |-> "rbrace", b |-> <<125>>], [c |-> "quote", b |-> <<34>>], [c |-> "bslash", b |-> <<92>>],
      [c |-> "hash", b |-> <<35>>],    [c |-> "dollar", b |-> <<36>>], [c |-> "lparen", b |-> <<40>>],
      [c |-> "rparen", b |-> <<41>>],  [c |-> "dot", b |-> <<46>>],   [c |-> "eq", b |-> <<61>>],
-     [c |-> "nul", b |-> <<0>>],      [c |-> "xff", b |-> <<255>>],  [c |-> "multibyte", b |-> <<195, 169>>] >>
+     [c |-> "nul", b |-> <<0>>],      [c |-> "xff", b |-> <<255>>],  [c |-> "multibyte", b |-> <<195, 169>>],
+     \* a decimal digit outside ASCII (U+0663 ARABIC-INDIC DIGIT THREE): a token made of it is a
+     \* directive name that starts with a digit
+     [c |-> "nadigit", b |-> <<217, 163>>] >>
 NClasses == Len(ByteClasses)
 RawBytes(r) == FlattenSeq([i \in 1..Len(r) |-> ByteClasses[r[i]].b])
 
@@ -131,6 +145,26 @@ SplitO(c) == (c % 1000000) \div 1000
 SplitI(c) == c % 1000
 SnipSplitItems(c) == <<S("s", <<DeepEnd(SplitI(c), SplitE(c))>>), DeepWrap(SplitO(c), I("s"))>>
 SnipDeepItems(d) == <<S("s", <<DeepWrap(d, D("c", <<P("z")>>))>>), DeepWrap(d, I("s"))>>
+(* names over the character-class alphabet *)
+NameClasses ==
+  << [c |-> "L", s |-> "k"],       [c |-> "Lx", s |-> "~00E9~"],  \* letter: ASCII, LATIN SMALL LETTER E WITH ACUTE
+     [c |-> "D", s |-> "7"],       [c |-> "Dx", s |-> "~0663~"],  \* decimal digit (Nd): ASCII, ARABIC-INDIC DIGIT THREE,
+     [c |-> "Df", s |-> "~FF11~"],                                \*   FULLWIDTH DIGIT ONE
+     [c |-> "P", s |-> "_"],                                      \* allowed punctuation
+     [c |-> "N", s |-> "~00B2~"],                                 \* a number that is no decimal digit: SUPERSCRIPT TWO (No)
+     [c |-> "M", s |-> "~0301~"],                                 \* COMBINING ACUTE ACCENT (Mn)
+     [c |-> "X", s |-> "~20AC~"] >>                               \* EURO SIGN (Sc)
+NmPos(c) == c \div 1000000
+RECURSIVE NmDigits(_)
+NmDigits(n) == IF n = 0 THEN <<>> ELSE <<n % 16>> \o NmDigits(n \div 16)
+NmCls(c) == LET ds == NmDigits(c % 1000000) IN [i \in 1..Len(ds) |-> NameClasses[ds[i]].c]
+NmStr(c) == LET ds == NmDigits(c % 1000000) IN
+            FoldLeft(LAMBDA acc, i : acc \o NameClasses[ds[i]].s, "", [i \in 1..Len(ds) |-> i])
+\* "directive name": letters, digits and . - _ ; the first character is not a digit
+NameOK(cs) == /\ cs[1] \in {"L", "Lx", "P"}
+              /\ \A i \in 1..Len(cs) : cs[i] \in {"L", "Lx", "D", "Dx", "Df", "P"}
+\* the class the harness reports for a character (letter / decimal digit / punctuation / other)
+HClass(c) == CASE c \in {"L", "Lx"} -> "L" [] c \in {"D", "Dx", "Df"} -> "D" [] c = "P" -> "P" [] OTHER -> "X"
 LName(i) == "l" \o ToString(i)
 LadderItems(h) ==
   <<S(LName(0), <<D("c", <<>>)>>)>> \o
@@ -172,6 +206,9 @@ FixedPool ==
                         <<B("b", <<EnvA("h", "VERIF_SET", "")>>, <<D("c", <<EnvA("", "VERIF_SET", ""), EnvA("x", "VERIF_UNSET", "")>>)>>)>>)>>,
     D_hashquote |-> <<D("a", <<Q("x#y {", "x#y {"), P("z")>>)>>,
     D_emptyarg  |-> <<D("a", <<Q("", ""), P("x")>>)>>,
+    \* arguments outside ASCII: NO-BREAK SPACE (white space to unicode.IsSpace) inside quotes, a bare non-ASCII
+    \* letter / digit, a quoted LINE SEPARATOR
+    D_unicode   |-> <<D("a", <<Q("p~00A0~q", "p~00A0~q"), P("z~00E9~~0663~"), Q("~2028~", "~2028~")>>)>>,
     D_names     |-> <<D("a.b-c_d", <<>>), D("_a1", <<P("1")>>)>>,
     D_emptyblk  |-> <<B("a", <<>>, <<>>)>>,
     D_block     |-> <<BD>>,
@@ -222,6 +259,14 @@ FixedPool ==
     K_badchar   |-> <<Brk(D("a", <<P("x")>>), "badchar")>>,
     K_unterm    |-> <<Brk(D("a", <<P("x"), P("y")>>), "unterm")>> ]
 
+NmItems(c) ==
+  LET nm == NmStr(c)
+      mk(it) == IF NameOK(NmCls(c)) THEN it ELSE [it EXCEPT !.brk = "badname"]
+  IN  CASE NmPos(c) = 0 -> <<mk(D(nm, <<P("x")>>))>>
+        [] NmPos(c) = 1 -> <<B("a", <<>>, <<mk(D(nm, <<P("x")>>)), D("c", <<>>)>>)>>
+        [] NmPos(c) = 2 -> <<mk(B(nm, <<P("x")>>, <<D("b", <<P("y")>>)>>))>>
+        [] OTHER        -> <<S("s", <<mk(D(nm, <<>>))>>), B("a", <<>>, <<I("s")>>)>>
+NmName(c) == "X_name" \o ToString(c)
 DeepName(d)   == "X_deep" \o ToString(d)
 LadderName(h) == "X_ladder" \o ToString(h)
 MCloseName(n) == "X_mclose" \o ToString(n)
@@ -229,9 +274,10 @@ SnipDeepName(d) == "X_snipdeep" \o ToString(d)
 SnipSplitName(c) == "X_snipsplit" \o ToString(c)
 GadgetNames == DOMAIN FixedPool \cup {DeepName(d) : d \in Depths} \cup {LadderName(h) : h \in Ladders}
                \cup {MCloseName(n) : n \in MacroCloses} \cup {SnipDeepName(d) : d \in SnipDeeps}
-               \cup {SnipSplitName(c) : c \in SnipSplits}
+               \cup {SnipSplitName(c) : c \in SnipSplits} \cup {NmName(c) : c \in {x \in NameCodes : NmPos(x) <= 3}}
 Gadget(g) ==
   IF g \in DOMAIN FixedPool THEN FixedPool[g]
+  ELSE IF \E c \in NameCodes : g = NmName(c) THEN NmItems(CHOOSE c \in NameCodes : g = NmName(c))
   ELSE IF \E d \in Depths : g = DeepName(d) THEN <<DeepItem(CHOOSE d \in Depths : g = DeepName(d))>>
   ELSE IF \E n \in MacroCloses : g = MCloseName(n)
        THEN [i \in 1..(CHOOSE n \in MacroCloses : g = MCloseName(n)) |-> MacroCloseItem]
@@ -304,7 +350,7 @@ Pieces(items, st) ==
      \o Line(items[i], st, 0) \o Term(st)])
 
 NoMut == [op |-> "none", at |-> 0, p |-> ""]
-MutAlphabet == {"{", "}", "\"", "\\", "#", "$(m)", "(s)", "import", "=", "\n", " ", "{env:"}
+MutAlphabet == {"{", "}", "\"", "\\", "#", "$(m)", "(s)", "import", "=", "\n", " ", "{env:", "~0663~"}
 ApplyMut(ps, m) ==
   CASE m.op = "drop" -> RemoveAt(ps, m.at)
     [] m.op = "ins"  -> IF m.at > Len(ps) THEN Append(ps, m.p) ELSE InsertAt(ps, m.at, m.p)
@@ -340,7 +386,7 @@ ExpandArgs(as, mt) ==
        dev |-> UNION {ex[i].dev : i \in {j \in 1..Len(as) : \A k \in 1..(j - 1) : ~ex[k].err}},
        vals |-> FlattenSeq([i \in 1..Len(as) |-> ex[i].vals])]
 
-BadBrk == {"noclose", "extraclose", "extraopen", "noheader", "trail", "digit", "badchar"}
+BadBrk == {"noclose", "extraclose", "extraopen", "noheader", "trail", "digit", "badchar", "badname"}
 
 RECURSIVE ReadItems(_, _, _)
 ReadItem(it, top, st) ==
@@ -510,6 +556,10 @@ RECURSIVE TreeNames(_)
 TreeNames(nodes) == UNION {{nodes[i].n} \cup TreeNames(nodes[i].c) : i \in 1..Len(nodes)}
 (* shapes of the names used by the pool (first character class, set of classes) *)
 ModelShape(n) ==
+  IF \E c \in NameCodes : n = NmStr(c)
+  THEN LET cs == NmCls(CHOOSE c \in NameCodes : n = NmStr(c))
+       IN  [first |-> HClass(cs[1]), all |-> SetToSeq({HClass(cs[i]) : i \in 1..Len(cs)})]
+  ELSE
   CASE n = "a.b-c_d" -> [first |-> "L", all |-> <<"L", "P">>]
     [] n = "_a1"     -> [first |-> "P", all |-> <<"D", "L", "P">>]
     [] OTHER         -> [first |-> "L", all |-> <<"L">>]
@@ -568,6 +618,8 @@ RuleOut(ex) ==
 FileScenarios ==
   {[kind |-> kd, k |-> 0, d |-> 0] : kd \in {"self", "cycle2", "cycle3", "plain"}} \cup
   {[kind |-> "chain", k |-> c \div 1000, d |-> c % 1000] : c \in FileChains} \cup
+  \* kind "name": position 4 of NameCodes - the name is a directive of a file imported inside a block
+  {[kind |-> "name", k |-> c % 1000000, d |-> 0] : c \in {x \in NameCodes : NmPos(x) = 4}} \cup
   \* kind "split": k = blocks around the import, d = blocks in the imported file, e = innermost empty
   {[kind |-> IF SplitE(c) = 1 THEN "splitE" ELSE "split", k |-> SplitO(c), d |-> SplitI(c)] : c \in FileSplits}
 ChainName(j) == IF j = 0 THEN "x.conf" ELSE "f" \o ToString(j) \o ".conf"
@@ -583,6 +635,8 @@ FilesOf(sc) ==
                                [name |-> "fc.conf", items |-> <<I("fa.conf")>>]>>
     [] sc.kind = "plain"  -> <<[name |-> "x.conf", items |-> <<I("inc.conf"), B("a", <<>>, <<I("s")>>)>>],
                                [name |-> "inc.conf", items |-> <<D("b", <<P("y")>>), S("s", <<Leaf>>)>>]>>
+    [] sc.kind = "name" -> <<[name |-> "x.conf", items |-> <<B("a", <<>>, <<I("f1.conf")>>)>>],
+                             [name |-> "f1.conf", items |-> NmItems(sc.k)]>>
     [] sc.kind \in {"split", "splitE"} ->
          <<[name |-> "x.conf", items |-> <<DeepWrap(sc.k, I("f1.conf"))>>],
            [name |-> "f1.conf", items |-> <<DeepEnd(sc.d, IF sc.kind = "splitE" THEN 1 ELSE 0)>>]>>
@@ -605,6 +659,12 @@ FileExpected(sc, enabled) ==
          [class |-> "tree", devs |-> {},
           tree |-> <<[n |-> "b", a |-> <<"y">>, b |-> FALSE, c |-> <<>>],
                      [n |-> "a", a |-> <<>>, b |-> TRUE, c |-> <<LeafNode>>]>>]
+    [] sc.kind = "name" ->
+         IF NameOK(NmCls(sc.k))
+         THEN [class |-> "tree", devs |-> {},
+               tree |-> <<[n |-> "a", a |-> <<>>, b |-> TRUE,
+                           c |-> <<[n |-> NmStr(sc.k), a |-> <<"x">>, b |-> FALSE, c |-> <<>>]>>]>>]
+         ELSE [class |-> "error", tree |-> <<>>, devs |-> {}]
     [] OTHER ->
          IF total <= NestLimit THEN [class |-> "tree", tree |-> <<DeepNodes(levels, bottom)>>, devs |-> {}]
          ELSE IF "DeepImportTree" \in enabled /\ total <= 2 * NestLimit
